@@ -341,8 +341,10 @@ func (e *Extractor) extractPrefixesConcat(re *syntax.Regexp, depth int) *Seq {
 		sub := re.Sub[i]
 		contribution := e.concatSubContribution(sub, depth)
 
-		if contribution == nil {
-			// Non-expandable sub-expression (wildcard, repetition, etc.)
+		if contribution.IsEmpty() {
+			// Non-expandable sub-expression (wildcard, repetition, case-fold literal
+			// with too many variants, etc.). An empty Seq means "no information",
+			// exactly like nil: it must not be skipped over.
 			// Mark all accumulated literals as inexact and stop.
 			e.markAllInexact(acc)
 			break
